@@ -254,6 +254,11 @@ func (u *UnitGen) run() {
 		}
 	}
 	u.curPos = "exit"
+	if cv := u.oblige(final, "cover", "cover:exit", "a normal exit of the function is reachable under the assumptions made", TTrue); cv != nil {
+		cv.Cover = true
+		cv.Result, cv.Backend = "", ""
+		cv.Goal = final.reach
+	}
 	for i, c := range u.contract.Ensures {
 		lbl := c.Label
 		if lbl == "" {
@@ -465,7 +470,7 @@ func (r *UnitResult) QueryFor(ob *Obligation, withModel bool) string {
 		b.WriteString("\n")
 	}
 	if ob.Cover {
-		b.WriteString("(check-sat)\n")
+		fmt.Fprintf(&b, "(assert %s)\n(check-sat)\n", ob.Goal.S)
 		return b.String()
 	}
 	fmt.Fprintf(&b, "(assert (not %s))\n(check-sat)\n", ob.Goal.S)
@@ -498,7 +503,7 @@ func (r *UnitResult) IncrementalScript() (string, []*Obligation) {
 				continue
 			}
 			if ob.Cover {
-				b.WriteString("(check-sat)\n")
+				fmt.Fprintf(&b, "(push 1)\n(assert %s)\n(check-sat)\n(pop 1)\n", ob.Goal.S)
 			} else {
 				fmt.Fprintf(&b, "(push 1)\n(assert (not %s))\n(check-sat)\n(pop 1)\n(assert %s)\n", ob.Goal.S, ob.Goal.S)
 			}
